@@ -88,6 +88,9 @@ type scanner struct {
 	src   []byte
 	State scannerState
 	saved scannerState
+	// one entry per capture started so far: true once it is closed
+	// (position captures are closed from the start)
+	closedCaptures []bool
 }
 
 func newScanner(src []byte) *scanner {
@@ -396,7 +399,12 @@ func parsePattern(sc *scanner, toplevel bool) *seqPattern {
 			case '0':
 				panic(newError(sc.CurrentPos(), "invalid capture index"))
 			case '1', '2', '3', '4', '5', '6', '7', '8', '9':
-				pat.Patterns = append(pat.Patterns, &numberPattern{sc.Next() - 48})
+				n := sc.Next() - 48
+				if n > len(sc.closedCaptures) || !sc.closedCaptures[n-1] {
+					// the capture does not exist yet or is still open here
+					panic(newError(sc.CurrentPos(), "invalid capture index"))
+				}
+				pat.Patterns = append(pat.Patterns, &numberPattern{n})
 			case 'b':
 				sc.Next()
 				pat.Patterns = append(pat.Patterns, &bracePattern{sc.Next(), sc.Next()})
@@ -417,13 +425,17 @@ func parsePattern(sc *scanner, toplevel bool) *seqPattern {
 			sc.Next()
 			if sc.Peek() == ')' {
 				sc.Next()
+				sc.closedCaptures = append(sc.closedCaptures, true)
 				pat.Patterns = append(pat.Patterns, &posCapPattern{})
 			} else {
+				capidx := len(sc.closedCaptures)
+				sc.closedCaptures = append(sc.closedCaptures, false)
 				ret := &capPattern{parsePattern(sc, false)}
 				if sc.Peek() != ')' {
 					panic(newError(sc.CurrentPos(), "unfinished capture"))
 				}
 				sc.Next()
+				sc.closedCaptures[capidx] = true
 				pat.Patterns = append(pat.Patterns, ret)
 			}
 		case '*', '+', '-', '?':
@@ -596,6 +608,10 @@ redo:
 		idx := inst.Operand1 * 2
 		if idx >= m.CaptureLength()-1 {
 			panic(newError(_UNKNOWN, "invalid capture index"))
+		}
+		if m.IsPosCapture(idx) {
+			// a position capture has no text to be matched again (Lua 5.1: no match)
+			return false, sp, m
 		}
 		capture := src[m.Capture(idx):m.Capture(idx+1)]
 		for i := 0; i < len(capture); i++ {
